@@ -140,7 +140,17 @@ def run(ctx):
         res.rules.append("safety: synthesised fonts x dir flags 0..7 x 3 encodings (ill-formed UTF, astral, unmapped, long runs); looping state machines on runs of 10..130 glyphs; fonts with an operand one past its table; byte-mutated shipped fonts (%s) x 10 texts; make face/font/seg, loop report, full dump, destroy, leak check" % ", ".join(SHIPPED))
         loopm = [(k, m[1]) for k, m in enumerate(meta) if m[0] == "loop"]
         lm = lib.run_lines([lib.driver_path(), "shape"], [x[1] for x in loopm], per_chunk=60, line_timeout=600) if ctx.model_ok and loopm else []
-        lmodel = {k: o for (k, _), o in zip(loopm, lm)}
+        lmodel = {}
+        for (k, _), o in zip(loopm, lm):
+            curok, o = heapcheck.split_curok(o)
+            lmodel[k] = o
+            if curok is not None:
+                res.count("safety-loop:rule-code-passes-cursor-tests=" + curok)
+                if curok != "1" and not impl[k].startswith(("noface", "CRASH", "fault")):
+                    fi = int(lines[k].split("=")[1].split(",")[0])
+                    res.failures.append({"harness": "h_seg", "mode": "shape", "line": meta[k][1], "api_line": lines[k].split(";R0")[0] + ";R0;D0", "impl": impl[k][:300], "model": (o or "")[:300],
+                                         "tag": "cursor-hyp", "exe_args": [], "font_hex": open(fonts[fi], "rb").read().hex(),
+                                         "why": "the loader accepted a font whose rule code fails the cursor tests: the hypothesis of no_write_through_a_null_cursor is not met"})
         for k, (l, o, m) in enumerate(zip(lines, impl, meta)):
             res.evaluations += 1
             res.distinct.add(l)
@@ -165,10 +175,76 @@ def run(ctx):
         res.samples.append({"in": lines[0][:200], "impl": impl[0][:200], "model": "(no model at this level)"})
     finally:
         shutil.rmtree(tmp, ignore_errors=True)
+    cursor_hypothesis(ctx, res, q)
     return res.as_dict()
 
 
+def cursor_hypothesis(ctx, res, q):
+    """the hypothesis of no_write_through_a_null_cursor against the real loader: whatever code Machine::Code's loading constructor
+    accepts (the rule code of shipped fonts, intact and with a byte changed, and generated programs that mostly pass its tests, with
+    boundary operands, runs of INSERT/DELETE/NEXT, truncations) must pass the cursor tests of the theorem (grdriver loader codecur)"""
+    import pathlib
+    import passgen
+    import sfnt
+    from props import c01
+    r = lib.rng("c02cur")
+    hp = lib.build_harness("h_pass")
+    for bf in ("Padauk.ttf", "charis_r_gr.ttf", "general.ttf"):
+        bfp = str(lib.REPO / "tests" / "fonts" / bf)
+        if not pathlib.Path(bfp).exists():
+            continue
+        lims = c01.codeinfo(res, hp, bfp)
+        if lims is None:
+            continue
+        li = tuple(int(x) for x in lims)
+        real = []
+        for sb, pb in passgen.silf_passes(sfnt.read_tables(pathlib.Path(bfp))["Silf"]):
+            real += passgen.pass_codes(pb)
+        tails = []
+        for k in range(1500 if q else 60000):
+            if real and k % 3 == 0:
+                c, pre, rl, code = r.choice(real)
+                pt = r.choice([2, 3])
+                if k % 9 == 0:
+                    code = bytearray(code)
+                    i = r.randrange(len(code))
+                    code[i] = r.choice([code[i] ^ (1 << r.randrange(8)), r.randrange(256), 25, 31, 32, 0, 255])
+                    code = bytes(code)
+            elif k % 3 == 1:
+                c, pt, pre, rl, code = passgen.gen_code(r, li)
+            else:
+                # cursor movers only: INSERT / DELETE / NEXT / COPY_NEXT in random order with an opcode that needs a slot now and then
+                rl = r.choice([1, 1, 1, 2, 2, 3, 5])
+                pre = r.randrange(0, rl)
+                body = []
+                for _ in range(r.randrange(1, 10)):
+                    body += r.choice([[25], [27], [31], [32], [32, 25], [32, 27], [31, 27], [32, 25]]) if r.random() < 0.8 else r.choice([[59, 0, 0], [1, 5, 35, 0], [33, 1, 0], [30, 0]])
+                c, pt, code = False, r.choice([1, 2]), bytes(body + [r.choice([49, 49, 50])])
+            tails.append("%d %d %d %d %s %s" % (1 if c else 0, pt, pre, rl, " ".join(lims), code.hex()))
+        impl = lib.run_lines([hp, bfp], ["code " + t for t in tails], per_chunk=300)
+        model = lib.run_lines([lib.driver_path(), "loader"], ["codecur " + t for t in tails], per_chunk=300) if ctx.model_ok else [None] * len(tails)
+        if "h_pass/loader codecur" not in res.harness:
+            res.harness.append("h_pass/loader codecur")
+            res.rules.append("cursor hypothesis: Machine::Code on the rule code of shipped fonts (intact / one byte changed), generated programs against its limits and random runs of INSERT/DELETE/NEXT/COPY_NEXT with slot-writing opcodes in between; every program the real loader accepts must pass the cursor tests the theorem assumes (codeOK)")
+        for t, i, m in zip(tails, impl, model):
+            res.evaluations += 1
+            res.distinct.add("codecur " + t)
+            acc = i.startswith("ok")
+            res.count("cursor-hyp:%s:%s:%s" % ("constraint" if t[0] == "1" else "action", "accepted" if acc else ("fault" if i.startswith(("CRASH", "fault")) else "refused"), m))
+            if i.startswith(("CRASH", "fault")):
+                res.failures.append({"harness": "h_pass", "mode": "loader", "line": "code " + t, "impl": i[:300], "model": m, "exe_args": [bfp], "why": "crash / out-of-bounds access in the code loader"})
+            elif acc and m is not None and m != "cur=1" and (t[0] == "1" or int(t.split()[2]) < int(t.split()[3])):      # (preContext < sort is Pass::readRules' test, not the code loader's)
+                res.failures.append({"harness": "h_pass", "mode": "loader", "line": "code " + t, "impl": i[:300], "model": m, "exe_args": [bfp], "tag": "cursor-hyp",
+                                     "why": "the loader accepted code that fails the cursor tests (_out_index/_out_length bookkeeping of fetch_opcode: NEXT inside the output, test_context() before a write through the cursor): the hypothesis of no_write_through_a_null_cursor does not hold of a loader-accepted program"})
+
+
 def replay(ctx, obj):
+    if obj.get("harness") == "h_pass" and obj.get("line", "").startswith("code "):
+        hp = lib.build_harness("h_pass")
+        i = lib.run_lines([hp] + obj.get("exe_args", []), [obj["line"]])[0]
+        m = lib.run_lines([lib.driver_path(), "loader"], ["codecur " + obj["line"][5:]])[0]
+        print("input : %s\nloader: %s\ncursor tests of the theorem (model): %s" % (obj["line"][:400], i[:300], m))
+        return i.startswith(("CRASH", "fault")) or (i.startswith("ok") and m != "cur=1")
     if obj.get("mode") == "shape":
         return heapcheck.replay_shape(obj)
     if obj.get("mode") == "safety" and obj.get("font_hex"):
